@@ -745,7 +745,11 @@ impl<T> TooDee<T> {
     {
         assert!(index < self.num_rows);
         let start = index * self.num_cols;
-        let drain = self.data.drain(start..start + self.num_cols);
+        // Move the row to the end of the `Vec` and drain the tail, so that the `Vec`'s length
+        // matches the updated dimensions even if the returned `Drain` is leaked.
+        self.data[start..].rotate_left(self.num_cols);
+        let tail_start = self.data.len() - self.num_cols;
+        let drain = self.data.drain(tail_start..);
         self.num_rows -= 1;
         if self.num_rows == 0 {
             self.num_cols = 0;
